@@ -139,6 +139,29 @@ def check_spec(ctx, case, gt, sp, generations=2):
                 raise Discrepancy("C01", "save-after-edit:deep_eq",
                                   "edited IR and its reloaded second save "
                                   "are not deep_eq", {})
+    # the same for an IR that was *loaded*: edited through public
+    # attributes, saved, loaded - the file must describe it as edited
+    # (nothing remembered from the file it came from may win)
+    if rnd.random() < 0.5:
+        from .. import world
+        loaded = ir_prev
+        nodes_l = {n.uuid.hex: n for n in world.reachable(gt, loaded)}
+        sp3, edits = irbuild.mutate_live(rnd, gt, sp, nodes_l, {},
+                                         rnd.randint(1, 4))
+        if edits:
+            for e in edits:
+                ctx.count("resave_loaded_after_edit:" + e.split(":")[0])
+            ctx.count("resave_loaded_after_edit")
+            irc = irio.load(gt, irio.save(loaded))
+            d = contract.diff(gspec.normalize(sp3),
+                              irbuild.snapshot(irc, gt))
+            if d:
+                raise Discrepancy(
+                    "C01", "save-loaded-after-edit:" +
+                    irio.general_path(d[0]),
+                    "a loaded IR edited (%s) and saved: the file does not "
+                    "describe the edited IR: %s"
+                    % (", ".join(sorted(set(edits))), d[0]), {"diffs": d})
     return ir, nodes, raw, ir2
 
 
